@@ -131,6 +131,8 @@ type Sim struct {
 	// Respond, when set, is asked for the gateway's answer to every client
 	// datagram (in order); it returns the datagrams to send back.
 	Respond func(p snref.Pkt) []snref.Pkt
+
+	activity chan struct{} // signalled whenever the client writes a datagram
 }
 
 func (s *Sim) Now() int64 { return int64(time.Since(s.start)) }
@@ -144,7 +146,13 @@ func (s *Sim) log(e Event) {
 
 // Start creates the client and dials (inside a bubble).
 func Start(cfg Config, logger util.Logger) (*Sim, error) {
-	s := &Sim{Cfg: cfg, Link: memnet.NewDatagram("cl"), start: time.Now()}
+	s := &Sim{Cfg: cfg, Link: memnet.NewDatagram("cl"), start: time.Now(), activity: make(chan struct{}, 1)}
+	s.Link.OnWrite = func([]byte) {
+		select {
+		case s.activity <- struct{}{}:
+		default:
+		}
+	}
 	predef := topics.PredefinedTopics{}
 	for c, m := range cfg.Predef {
 		for id, n := range m {
@@ -283,31 +291,27 @@ func (s *Sim) Settle() {
 	}
 }
 
-// Advance lets virtual time pass in small steps, settling after each.
+// Advance lets virtual time pass. The harness sleeps until the client writes a
+// datagram (then the scripted gateway answers at that very instant) or until
+// the time is up, so long horizons cost nothing.
 func (s *Sim) Advance(d time.Duration) {
 	end := time.Now().Add(d)
-	step := 50 * time.Millisecond
-	if d > 30*time.Second {
-		step = 500 * time.Millisecond
-	}
-	if d > 10*time.Minute {
-		step = 5 * time.Second
-	}
 	for {
+		s.Settle()
 		left := time.Until(end)
 		if left <= 0 {
-			break
+			return
 		}
-		if left < step {
-			step = left
+		tm := time.NewTimer(left)
+		select {
+		case <-s.activity:
+			tm.Stop()
+		case <-tm.C:
 		}
-		time.Sleep(step)
-		s.Settle()
 	}
-	s.Settle()
 }
 
-// WaitCall advances virtual time until the call returns or max elapses.
+// WaitCall lets virtual time pass until the call returns or max elapses.
 func (s *Sim) WaitCall(cs *CallState, max time.Duration) bool {
 	end := time.Now().Add(max)
 	for {
@@ -319,14 +323,14 @@ func (s *Sim) WaitCall(cs *CallState, max time.Duration) bool {
 		if left <= 0 {
 			return false
 		}
-		step := 50 * time.Millisecond
-		if max > 30*time.Second {
-			step = 500 * time.Millisecond
+		tm := time.NewTimer(left)
+		select {
+		case <-cs.done:
+			tm.Stop()
+		case <-s.activity:
+			tm.Stop()
+		case <-tm.C:
 		}
-		if left < step {
-			step = left
-		}
-		time.Sleep(step)
 	}
 }
 
